@@ -97,10 +97,19 @@ impl Runner {
         F: Fn(usize) + Sync,
     {
         let runner = Self::new(params, task_type, iter.try_get_len());
+        #[cfg(feature = "verif-hooks")]
+        let (iter, thread_task) = (
+            &super::verif::ObservedLen(iter),
+            &super::verif::wrap_task(thread_task),
+        );
+        #[cfg(feature = "verif-hooks")]
+        super::verif::run_begin("run", &runner);
 
         let mut num_spawned = 0;
 
         std::thread::scope(|s| {
+            #[cfg(feature = "verif-hooks")]
+            let s = &super::verif::ObservedScope::new(s);
             let mut chunk: usize = runner.chunk_size.inner();
             'lag_period: loop {
                 for _ in 0..LAG_PERIODICITY {
@@ -122,6 +131,8 @@ impl Runner {
 
             s.spawn(move || thread_task(chunk));
             num_spawned += 1;
+            #[cfg(feature = "verif-hooks")]
+            super::verif::emit(super::verif::Event::SpawningFinished);
         });
 
         num_spawned
@@ -139,10 +150,19 @@ impl Runner {
         Out: Send + Sync,
     {
         let runner = Self::new(params, task_type, iter.try_get_len());
+        #[cfg(feature = "verif-hooks")]
+        let (iter, thread_task) = (
+            &super::verif::ObservedLen(iter),
+            &super::verif::wrap_task(thread_task),
+        );
+        #[cfg(feature = "verif-hooks")]
+        super::verif::run_begin("run_map", &runner);
 
         let mut num_spawned = 0;
 
         std::thread::scope(|s| {
+            #[cfg(feature = "verif-hooks")]
+            let s = &super::verif::ObservedScope::new(s);
             let mut handles = vec![];
             let mut chunk: usize = runner.chunk_size.inner();
             'lag_period: loop {
@@ -165,6 +185,8 @@ impl Runner {
 
             handles.push(s.spawn(move || thread_task(chunk)));
             num_spawned += 1;
+            #[cfg(feature = "verif-hooks")]
+            super::verif::emit(super::verif::Event::SpawningFinished);
 
             let mut vec = vec![];
             for x in handles {
@@ -188,8 +210,17 @@ impl Runner {
         R: Fn(T, T) -> T,
     {
         let runner = Self::new(params, task_type, iter.try_get_len());
+        #[cfg(feature = "verif-hooks")]
+        let (iter, thread_task) = (
+            &super::verif::ObservedLen(iter),
+            &super::verif::wrap_task(thread_task),
+        );
+        #[cfg(feature = "verif-hooks")]
+        super::verif::run_begin("reduce", &runner);
 
         std::thread::scope(|s| {
+            #[cfg(feature = "verif-hooks")]
+            let s = &super::verif::ObservedScope::new(s);
             let mut threads = Vec::with_capacity(runner.max_num_threads);
 
             let mut chunk: usize = runner.chunk_size.inner();
@@ -209,6 +240,8 @@ impl Runner {
             }
 
             threads.push(s.spawn(move || thread_task(chunk)));
+            #[cfg(feature = "verif-hooks")]
+            super::verif::emit(super::verif::Event::SpawningFinished);
 
             let num_threads = threads.len();
             let result = threads
@@ -234,4 +267,34 @@ fn lag() {
     }
 
     assert!(black_box(fibonacci(1 << 16)) > 0);
+}
+
+#[cfg(feature = "verif-hooks")]
+impl Runner {
+    pub(crate) fn verif_new(
+        params: Params,
+        task: ParTask,
+        input_len: Option<usize>,
+        avail: usize,
+    ) -> Self {
+        let max_num_threads =
+            num_threads::verif_calc_num_threads(input_len, avail, params.num_threads).max(1);
+        let chunk_size =
+            chunk_size::calc_chunk_size(task, input_len, max_num_threads, params.chunk_size);
+        Self {
+            _task: task,
+            input_len,
+            max_num_threads,
+            chunk_size,
+        }
+    }
+
+    pub(crate) fn verif_settings(&self) -> (usize, usize, bool, Option<usize>) {
+        (
+            self.max_num_threads,
+            self.chunk_size.inner(),
+            matches!(self.chunk_size, ResolvedChunkSize::Exact(_)),
+            self.input_len,
+        )
+    }
 }
